@@ -542,6 +542,12 @@ def _variant_of(x):
     x = strip(x)
     if x.k == 'aggr' and x.c is not None and x.c.get('akind') == 'adt':
         return x.c.get('variant')
+    if x.k == 'call' and last(x.name or '') == 'from_residual':
+        # the error arm of `?`: always the failing variant of the function's return type
+        if 'std::result::Result' in x.name:
+            return 'Err'
+        if 'std::option::Option' in x.name:
+            return 'None'
     return None
 
 
@@ -591,6 +597,15 @@ def simplify_variant(e):
                 i = int(name)
             if i is not None and i < len(c.args):
                 return c.args[i]
+        if c.k == 'phi' and c.args:
+            # field i of a merge of tuples (`let (a, b) = match .. { .. => (x, y), .. => (u, v) }`) is the merge of the fields
+            i = (e.c or {}).get('fidx')
+            if i is None and name.isdigit():
+                i = int(name)
+            alts = [strip(a) for a in c.args]
+            if i is not None and all(a.k == 'aggr' and a.c is not None and a.name == 'tuple' and i < len(a.args) for a in alts):
+                parts = [a.args[i] for a in alts]
+                return parts[0] if len(parts) == 1 else E('phi', None, parts, c=c.c)
         if c.k == 'field' and (c.name or '').startswith('as ') and c.args:
             i = (e.c or {}).get('fidx')
             if i is None and name.isdigit():
